@@ -538,6 +538,11 @@ def h2(ctx, rep, entries, O, rn):
                         if dep:
                             verdicts.append("last writer wins: the value kept depends on iteration order (%s)" % kind)
                         continue
+                    if kind == "fold":
+                        # the loop has the closed form of Iterator::fold: admitted under the same condition as the adaptor
+                        folds_ = [f for f in info["final"] if isinstance(f, tm.T) and f.op == "fold"]
+                        if folds_ and all(pointwise_sum_fold(f) for f in folds_):
+                            continue
                     verdicts.append("fold kind '%s' is not known to be order-insensitive" % kind)
                 for s, n in info["general"]:
                     d = option_sum_shape(s, n, state_syms) if s.op == "sym" else None
